@@ -103,6 +103,7 @@ def sim_run(binary, spec, gmp, idx, quiet=False):
     d = tempfile.mkdtemp(prefix='c05_%s_' % spec['name'].replace('/', '_'))
     env = dict(os.environ)
     env['GOMAXPROCS'] = str(gmp)
+    env['C05_HSACO'] = os.path.join(vlib.REPO, 'amd', 'tests', 'deterministic', 'empty_kernel', 'kernels.hsaco')
     if quiet:   # one P and no garbage collections: the hand-off race practically cannot fire
         env['GOGC'] = 'off'
     cmd = [binary, 'sim', wl, str(size), str(rounds), '--'] + flags
@@ -141,12 +142,17 @@ def functional(r):
     return (r['rc'], (r['out'] or {}).get('digest'), (r['out'] or {}).get('verify'))
 
 
+def commands(r):
+    """per-command (what, start, end) recorded by a tracer inside the engine goroutine, in start order"""
+    return (r['out'] or {}).get('commands') or []
+
+
 def observables(r, spec):
     if spec.get('parallel'):
         return functional(r)
     rows = r['rows']
     return (r['rc'], (r['out'] or {}).get('digest'), (r['out'] or {}).get('final_time_bits'),
-            json.dumps(rows) if rows is not None else None)
+            json.dumps(rows) if rows is not None else None, json.dumps(commands(r)))
 
 
 def row_diff(a, b):
@@ -159,6 +165,15 @@ def row_diff(a, b):
                 break
     if len(ra) != len(rb):
         out.append(['row count', len(ra), len(rb)])
+    nd = sum(1 for x, y in zip(ra, rb) if x != y)
+    if nd:
+        out.append(['differing metric rows', nd, 'of', len(ra)])
+    for i, (x, y) in enumerate(zip(commands(a), commands(b))):
+        if x != y:
+            out.append(['driver command %d (what, start, end)' % i, x, y])
+            break
+    if len(commands(a)) != len(commands(b)):
+        out.append(['driver command count', len(commands(a)), len(commands(b))])
     fa, fb = (a['out'] or {}).get('final_time'), (b['out'] or {}).get('final_time')
     if fa != fb:
         out.append(['final simulated time', fa, fb])
@@ -206,6 +221,12 @@ def workloads(thorough):
         {'name': 'mt64-emu-parallel', 'wl': 'mt', 'size': 64, 'rounds': 0, 'parallel': True, 'metrics': False,
          'flags': ['-parallel', '-verify', '-disable-rtm']},
     ]
+    # concurrency inside the simulated system (one application thread, everything enqueued before the first drain)
+    w += [
+        {'name': 'streams3-1gpu-timing', 'wl': 'streams', 'size': 600, 'rounds': 3, 'prefilled': True, 'queues': 3, 'flags': ['-timing', '-report-all', '-disable-rtm']},
+        {'name': 'multiq-2gpu-timing', 'wl': 'multiq', 'size': 256, 'rounds': 16, 'prefilled': True, 'queues': 2, 'flags': ['-timing', '-report-all', '-disable-rtm', '-gpus=1,2'],
+         'gmps': [1, 1, 1, 2, 4, 16, 16, 16] if not thorough else [1, 1, 1, 1, 2, 2, 4, 4, 16, 16, 16, 16]},
+    ]
     if thorough:
         w += [
             {'name': 'fir1024-timing', 'wl': 'fir', 'size': 1024, 'rounds': 0, 'flags': T},
@@ -228,7 +249,7 @@ def same_shape(a, b):
         return False
     ka = [(r[0], r[1], r[3]) for r in (a['rows'] or [])]
     kb = [(r[0], r[1], r[3]) for r in (b['rows'] or [])]
-    return ka == kb
+    return ka == kb and [c[0] for c in commands(a)] == [c[0] for c in commands(b)]
 
 
 def compare_workload(binary, spec, gmps, pool):
@@ -249,21 +270,40 @@ def compare_workload(binary, spec, gmps, pool):
         return runs, 'violation', {'what': 'run failed (exit %s%s)' % (r['rc'], ', timeout' if r['rc'] == 124 else ''),
                                    'cmd': r['cmd'], 'tail': r['tail']}
     cnt = collections.Counter(observables(r, spec) for r in runs)
-    if len(cnt) == 1:
-        return runs, 'ok', None
     base_obs = cnt.most_common(1)[0][0]
     base = next(r for r in runs if observables(r, spec) == base_obs)
     dev = [r for r in runs if observables(r, spec) != base_obs]
+    if len(cnt) == 1 and not spec.get('prefilled'):
+        return runs, 'ok', None
+    if spec.get('prefilled'):
+        # every queue was filled before the first drain: nothing may run before it, so the commands picked up by the
+        # first driver tick (and that tick's time) are the same in every repetition, whatever the host schedule; the
+        # known hand-off race cannot touch this (the engine has never run when the first signal arrives)
+        sig = lambda r: (min([c[1] for c in commands(r)] or ['']), sum(1 for c in commands(r) if c[1] == min(x[1] for x in commands(r))))
+        odd = [r for r in runs if sig(r) != sig(base)] or [r for r in runs if sig(r)[1] < spec.get('queues', 0)]
+        if odd:
+            return runs, 'violation', {'what': 'commands enqueued before the first drain were not all picked up by the first driver tick '
+                                               'in every repetition (first tick time, number of commands it started: %s vs %s; queues filled before the drain: %d)'
+                                               % (sig(base), sig(odd[0]), spec.get('queues', 0)),
+                                       'cmd_a': base['cmd'], 'cmd_b': odd[0]['cmd'], 'differing': row_diff(base, odd[0])}
+    if len(cnt) == 1:
+        return runs, 'ok', None
     hard = [r for r in dev if spec.get('parallel') or not same_shape(base, r)]
     if hard:
         return runs, 'violation', {'what': 'repetitions of the same simulation differ in functional result or metric rows',
                                    'cmd_a': base['cmd'], 'cmd_b': hard[0]['cmd'], 'differing': row_diff(base, hard[0])}
     quiet = list(pool.map(lambda i: sim_run(binary, spec, 1, 100 + i, quiet=True), range(6)))
+
+    def split(qs):
+        good = [r for r in qs if r['rc'] == 0]
+        c = collections.Counter(observables(r, spec) for r in good)
+        b0 = c.most_common(1)[0][0] if c else None
+        return good, c, b0, [r for r in good if observables(r, spec) != b0]
+    qgood, qcnt, qbase_obs, qdev = split(quiet)
+    if len(qdev) == 1:      # ambiguous: one more batch decides
+        quiet += list(pool.map(lambda i: sim_run(binary, spec, 1, 200 + i, quiet=True), range(6)))
+        qgood, qcnt, qbase_obs, qdev = split(quiet)
     runs += quiet
-    qgood = [r for r in quiet if r['rc'] == 0]
-    qcnt = collections.Counter(observables(r, spec) for r in qgood)
-    qbase_obs = qcnt.most_common(1)[0][0] if qcnt else None
-    qdev = [r for r in qgood if observables(r, spec) != qbase_obs]
     if len(qgood) < 4 or len(qdev) >= 2 or any(not same_shape(base, r) for r in qgood):
         qb = next((r for r in qgood if observables(r, spec) == qbase_obs), base)
         other = qdev[0] if qdev else dev[0]
@@ -421,7 +461,7 @@ def main(argv):
     t_sim = time.time()
     with ThreadPoolExecutor(max_workers=4) as pool:
         for spec in specs:
-            runs, verdict, detail = compare_workload(binary, spec, gmps, pool)
+            runs, verdict, detail = compare_workload(binary, spec, spec.get('gmps', gmps), pool)
             n_runs += len(runs)
             sim_summary.append({'workload': spec['name'], 'flags': ' '.join(spec['flags']), 'runs': len(runs), 'verdict': verdict,
                                 'metric_rows': len(runs[0]['rows'] or []), 'final_time': (runs[0]['out'] or {}).get('final_time'),
